@@ -238,10 +238,6 @@ class Scrollable(WidgetDecoration[WrappedWidget]):
             # Canvas is lower than available vertical space
             canv.pad_trim_top_bottom(0, fill_height)
 
-        if canv_cols <= maxcol and canv_rows <= maxrow:
-            # Canvas is small enough to fit without trimming
-            return canv
-
         self._adjust_trim_top(canv, size)
 
         # Trim canvas if necessary
